@@ -4,6 +4,7 @@ package h
 
 import (
 	"bufio"
+	"crypto/sha1"
 	"encoding/binary"
 	"encoding/hex"
 	"encoding/json"
@@ -91,10 +92,12 @@ func (c *Ctx) Case(cat string, nontrivial bool, name string, args [][]byte, outs
 	c.Evals++
 	c.Cats[cat]++
 	if nontrivial {
-		if len(key) > 200 {
-			key = key[:200] + fmt.Sprintf("#%d", len(key))
+		dk := key
+		if len(dk) > 64 {
+			sum := sha1.Sum([]byte(dk))
+			dk = string(sum[:])
 		}
-		c.Distinct[key] = struct{}{}
+		c.Distinct[dk] = struct{}{}
 	}
 	if len(c.Samples) < 12 && (c.Cases%97 == 1) {
 		c.Samples = append(c.Samples, map[string]any{"call": truncate(key, 300), "impl": truncate(sb.String()[len(key):], 300), "category": cat})
